@@ -31,6 +31,8 @@ var c14Names = []string{"foo", "bar", "controller", "x", "meta", "tags", "create
 	"ID", "Id", "iD", "identifier", "ids", "PublicKey", "Service", "AlsoKnownAs", "alsoknownas", "Publickey", "SERVICE",
 	// characters that are no metacharacters of JSON or of JSON pointers, merely unusual: DEL, C1, a non-character, unassigned /
 	// private-use / tag characters beyond the basic plane (what Go's %q would spell in a way JSON does not know)
+	// names made of digits are member names (array indexes only where an array is addressed)
+	"007", "00", "01", "0", "10", "-1", "1e3",
 	"del\u007f", "c1\u0085x", "nc\ufffe", "tag\U000E0020", "pua\U000F0000", "last\U0010FFFF", "sep\u2028"}
 
 func c14Doc(r *fw.Rand) map[string]interface{} {
@@ -52,6 +54,10 @@ func c14Doc(r *fw.Rand) map[string]interface{} {
 	}
 	for i, n := 0, r.Intn(5); i < n; i++ {
 		doc[fw.Pick(r, c14Names)] = gen.RandValue(r, 2)
+	}
+	if r.Chance(1, 3) {
+		// numbers of every size class as member values (beyond 2^53 and 2^63, huge and tiny exponents): they are doubles like any other
+		doc[fw.Pick(r, []string{"numbers", "n1", "meta"})] = []interface{}{1e21, 1.5e300, -36028797018963968.0, 9007199254740993.0, 18446744073709551615.0, 5e-324, 1e-7, 123456789012345680000.0}
 	}
 	if svcs, ok := doc["service"].([]interface{}); ok && r.Chance(1, 4) {
 		// endpoints without a scheme that the validator takes: a rooted path, a network-path reference
@@ -162,6 +168,12 @@ func c14Constructors(c *fw.Case) {
 			{map[string]interface{}{"op": "add", "path": "/tags", "value": []interface{}{0, 1, 2, 3, 4, 5, 6, 7, 8, 9, 10, 11}}, map[string]interface{}{"op": "move", "from": "/tags/1", "path": "/tags/10"}},
 			{map[string]interface{}{"op": "add", "path": "/a", "value": map[string]interface{}{"b": 1}}, map[string]interface{}{"op": "copy", "from": "/a", "path": "/ab"}, map[string]interface{}{"op": "move", "from": "/a/b", "path": "/a/bc"}},
 		})...)
+	}
+	if r.Chance(1, 3) {
+		// values holding numbers of every size class (every double is a JSON number a patch can carry)
+		freeOps = append(freeOps, map[string]interface{}{"op": "add", "path": "/measure", "value": map[string]interface{}{"big": 1e21, "huge": 1.5e300, "neg": -36028797018963968.0, "odd": 9007199254740994.0,
+			"max": 18446744073709551615.0, "tiny": 5e-324, "list": []interface{}{1e22, gen.RandDouble(r), 0.1}}})
+		c.Count("patch-values-with-large-numbers", 1)
 	}
 	if r.Chance(1, 3) {
 		// the empty pointer is a well-formed pointer too (the whole document): as path and as from
